@@ -81,6 +81,8 @@ pub struct PScenario {
     pub max_parts: u64,
     /// number of read faults (F2) that may be injected
     pub faults: u32,
+    /// groupid of each initial part (earlier attempts have lower group ids); empty = all 1
+    pub groups: Vec<u64>,
 }
 
 #[derive(Default)]
@@ -252,12 +254,12 @@ fn run_once(sc: &PScenario, prefix: &[usize], st: &mut PStats, max_steps: usize)
     let hash = sha256::Hash::hash(&pre);
     let hash_hex = hex::encode(AsRef::<[u8]>::as_ref(&hash));
     let mut node = Node::new(100, "0279be667ef9dcbbac55a06295ce870b07029bfcdb2dce28d959f2815b16f81798");
-    node.next_group.insert(hash_hex.clone(), 1);
+    node.next_group.insert(hash_hex.clone(), sc.groups.iter().copied().max().unwrap_or(1));
     for (k, s) in sc.initial.iter().enumerate() {
         node.parts.push(crate::node::Part {
             id: 100 + k as u64,
             hash_hex: hash_hex.clone(),
-            groupid: 1,
+            groupid: sc.groups.get(k).copied().unwrap_or(1),
             partid: k as u64 + 1,
             status: *s,
             preimage: if *s == PartStatus::Complete { Some(pre) } else { None },
@@ -423,24 +425,35 @@ pub fn scenarios_c15(thorough: bool) -> Vec<PScenario> {
     let sts = [Pending, Complete, Failed];
     let max = if thorough { 3 } else { 3 };
     // all multisets of up to `max` parts (order matters little; enumerate sequences up to 3)
-    v.push(PScenario { pay: false, initial: vec![], codes: vec![203], max_parts: 0, faults: 0 });
+    v.push(PScenario { pay: false, initial: vec![], codes: vec![203], max_parts: 0, faults: 0, groups: vec![] });
     for a in sts {
-        v.push(PScenario { pay: false, initial: vec![a], codes: vec![202, 203, 204, 209], max_parts: 0, faults: 0 });
+        v.push(PScenario { pay: false, initial: vec![a], codes: vec![202, 203, 204, 209], max_parts: 0, faults: 0, groups: vec![] });
         for b in sts {
-            v.push(PScenario { pay: false, initial: vec![a, b], codes: vec![203, 204], max_parts: 0, faults: 0 });
+            v.push(PScenario { pay: false, initial: vec![a, b], codes: vec![203, 204], max_parts: 0, faults: 0, groups: vec![] });
             if max >= 3 {
                 for c in sts {
-                    v.push(PScenario { pay: false, initial: vec![a, b, c], codes: vec![204], max_parts: 0, faults: 0 });
+                    v.push(PScenario { pay: false, initial: vec![a, b, c], codes: vec![204], max_parts: 0, faults: 0, groups: vec![] });
                 }
             }
         }
     }
+    // parts of two attempts (different group ids) still around
+    for (init, groups) in [
+        (vec![Pending, Pending], vec![1u64, 2]),
+        (vec![Pending, Failed], vec![1, 2]),
+        (vec![Failed, Pending], vec![1, 2]),
+        (vec![Pending, Complete], vec![1, 2]),
+        (vec![Pending, Pending, Pending], vec![1, 2, 2]),
+        (vec![Pending, Pending, Failed], vec![1, 1, 2]),
+    ] {
+        v.push(PScenario { pay: false, initial: init, codes: vec![203, 204], max_parts: 0, faults: 0, groups });
+    }
     if thorough {
-        v.push(PScenario { pay: false, initial: vec![Pending, Pending, Pending, Pending], codes: vec![204], max_parts: 0, faults: 0 });
+        v.push(PScenario { pay: false, initial: vec![Pending, Pending, Pending, Pending], codes: vec![204], max_parts: 0, faults: 0, groups: vec![] });
         // F2: one read fault anywhere
         for a in sts {
             for b in sts {
-                v.push(PScenario { pay: false, initial: vec![a, b], codes: vec![203], max_parts: 0, faults: 1 });
+                v.push(PScenario { pay: false, initial: vec![a, b], codes: vec![203], max_parts: 0, faults: 1, groups: vec![] });
             }
         }
     }
@@ -448,10 +461,10 @@ pub fn scenarios_c15(thorough: bool) -> Vec<PScenario> {
 }
 
 pub fn scenarios_c16(thorough: bool) -> Vec<PScenario> {
-    let mut v = vec![PScenario { pay: true, initial: vec![], codes: vec![203], max_parts: 1, faults: 0 }, PScenario { pay: true, initial: vec![], codes: vec![204], max_parts: 2, faults: 0 }];
+    let mut v = vec![PScenario { pay: true, initial: vec![], codes: vec![203], max_parts: 1, faults: 0, groups: vec![] }, PScenario { pay: true, initial: vec![], codes: vec![204], max_parts: 2, faults: 0, groups: vec![] }];
     if thorough {
-        v.push(PScenario { pay: true, initial: vec![], codes: vec![203, 209], max_parts: 2, faults: 0 });
-        v.push(PScenario { pay: true, initial: vec![], codes: vec![203], max_parts: 3, faults: 0 });
+        v.push(PScenario { pay: true, initial: vec![], codes: vec![203, 209], max_parts: 2, faults: 0, groups: vec![] });
+        v.push(PScenario { pay: true, initial: vec![], codes: vec![203], max_parts: 3, faults: 0, groups: vec![] });
     }
     v
 }
